@@ -105,6 +105,12 @@ func runC06(r *ev.Run) {
 		}
 		var removedIDs []uint32
 		failingWithParts, removals, readds := 0, 0, 0
+		type docContent struct {
+			v    []float32
+			text string
+			md   map[string]any
+		}
+		content := map[uint32]docContent{} // what each id carried when it was last added
 		genDoc := func() ([]float32, string, map[string]any) {
 			var v []float32
 			var text string
@@ -253,6 +259,7 @@ func runC06(r *ev.Run) {
 					return
 				}
 				h.add(id, v, text, md)
+				content[id] = docContent{cloneF32(v), text, md}
 				r.Count("ops:add", 1)
 			case c < 10: // failing add
 				v, text, md := genDoc()
@@ -345,12 +352,29 @@ func runC06(r *ev.Run) {
 				}
 				id := cands[rng.IntN(len(cands))]
 				v, text, md := genDoc()
+				// the everyday update changes only part of a document: each part is, one time in three, exactly
+				// what the id carried before its removal (same text / same vector / same metadata)
+				if old, ok := content[id]; ok {
+					if rng.IntN(3) == 0 {
+						text = old.text
+						r.Count("ops:re-add-with-unchanged-text", 1)
+					}
+					if rng.IntN(3) == 0 && old.v != nil {
+						v = cloneF32(old.v)
+						r.Count("ops:re-add-with-unchanged-vector", 1)
+					}
+					if rng.IntN(3) == 0 {
+						md = old.md
+						r.Count("ops:re-add-with-unchanged-metadata", 1)
+					}
+				}
 				hist = append(hist, hybridOp{"re-add", id, cloneF32(v), text, md})
 				if err := sut.idx.AddWithID(id, cloneF32(v), text, md); err != nil {
 					rep("c06.readd-error", fmt.Sprintf("re-adding removed id %d failed: %v", id, err))
 					return
 				}
 				h.add(id, v, text, md)
+				content[id] = docContent{cloneF32(v), text, md}
 				readds++
 				r.Count("ops:re-add-removed-id", 1)
 			}
@@ -390,6 +414,8 @@ func runC06(r *ev.Run) {
 		}
 		ids := newIDGen(rng)
 		readds := 0
+		lastText := map[uint32]string{}
+		lastVec := map[uint32][]float32{}
 		switch kind {
 		case "bm25":
 			idx := comet.NewBM25SearchIndex()
@@ -419,6 +445,7 @@ func runC06(r *ev.Run) {
 					hist = append(hist, fmt.Sprintf("add %d %q", id, text))
 					idx.Add(id, text)
 					m.add(id, text)
+					lastText[id] = text
 				case c < 6:
 					live := m.liveIDs()
 					id := live[rng.IntN(len(live))]
@@ -441,6 +468,10 @@ func runC06(r *ev.Run) {
 						continue
 					}
 					id, text := cands[rng.IntN(len(cands))], tg.doc()
+					if old, ok := lastText[id]; ok && rng.IntN(3) == 0 {
+						text = old // the same text again (only something else about the document changed)
+						r.Count("kinds:bm25-re-add-with-unchanged-text", 1)
+					}
 					hist = append(hist, fmt.Sprintf("re-add %d %q", id, text))
 					if err := idx.Add(id, text); err != nil {
 						rep("c06.bm25.readd-error", err.Error())
@@ -450,6 +481,7 @@ func runC06(r *ev.Run) {
 						delete(m.docs, id)
 					}
 					m.add(id, text)
+					lastText[id] = text
 					readds++
 				}
 				check(hist[len(hist)-1])
@@ -584,6 +616,7 @@ func runC06(r *ev.Run) {
 						return
 					}
 					m.add(id, v)
+					lastVec[id] = cloneF32(v)
 				case c < 6 && len(m.live) > 0:
 					live := m.liveIDs()
 					id := live[rng.IntN(len(live))]
@@ -622,6 +655,10 @@ func runC06(r *ev.Run) {
 						continue
 					}
 					id, v := cands[rng.IntN(len(cands))], vg.fresh()
+					if old, ok := lastVec[id]; ok && rng.IntN(3) == 0 {
+						v = cloneF32(old) // the same vector again
+						r.Count("kinds:re-add-with-unchanged-vector", 1)
+					}
 					pend := m.resident[id]
 					hist = append(hist, fmt.Sprintf("re-add %d (tombstone pending=%v)", id, pend))
 					if err := s.idx.Add(*comet.NewVectorNodeWithID(id, cloneF32(v))); err != nil {
@@ -629,6 +666,7 @@ func runC06(r *ev.Run) {
 						return
 					}
 					m.add(id, v)
+					lastVec[id] = cloneF32(v)
 					readds++
 				}
 				check(hist[len(hist)-1])
